@@ -366,7 +366,7 @@ theorem fin_reconcile (w : World) (wl : WL) (s : Sub)
       rw [hs1]
       dsimp only
       rw [if_neg (by simp [hc]), hd]
-    have hrec := reconcile_finalising_eq w wl ns _ d e _ hhf hcs hph hr hwl hc hfz
+    have hrec := reconcile_finalising_eq w wl ns _ d e _ hhf hcs hph hr hwl hc hfz hg.notDeleting hg.enabled
     have hcur0 : cursorOk (taskList (toCtx { w with ro := ns } s1 wl).ro.style .success)
         (toCtx { w with ro := ns } s1 wl).sub.finStep = true := by
       show cursorOk (taskList ns.style .success) s1.finStep = true
